@@ -23,6 +23,10 @@ func (k Keeper) HandleCreateClient(ctx sdk.Context, p *types.CreateClientProposa
 		return nil, err
 	}
 
+	if err := validateConsensusType(clientState, consensusState); err != nil {
+		return nil, err
+	}
+
 	if err := k.CreateClient(ctx, p.ChainName, clientState, consensusState); err != nil {
 		return nil, err
 	}
@@ -38,6 +42,10 @@ func (k Keeper) HandleUpgradeClient(ctx sdk.Context, p *types.UpgradeClientPropo
 
 	consensusState, err := types.UnpackConsensusState(p.ConsensusState)
 	if err != nil {
+		return nil, err
+	}
+
+	if err := validateConsensusType(clientState, consensusState); err != nil {
 		return nil, err
 	}
 
@@ -63,11 +71,29 @@ func (k Keeper) HandleToggleClient(ctx sdk.Context, p *types.ToggleClientProposa
 		return nil, err
 	}
 
+	if err := validateConsensusType(clientState, consensusState); err != nil {
+		return nil, err
+	}
+
 	if err := k.ToggleClient(ctx, p.ChainName, clientState, consensusState); err != nil {
 		return nil, err
 	}
 
 	return clientState, nil
+}
+
+// validateConsensusType checks that the consensus state of a proposal is one of the proposed client's type:
+// only the Tendermint client checks it when it is initialized; any other combination would be installed and
+// leave a client that is not active (a TSS client would get a consensus state at the zero height)
+func validateConsensusType(clientState exported.ClientState, consensusState exported.ConsensusState) error {
+	if consensusState.ClientType() != clientState.ClientType() {
+		return sdkerrors.Wrapf(
+			types.ErrInvalidConsensus,
+			"consensus state of type %s proposed for a client state of type %s",
+			consensusState.ClientType(), clientState.ClientType(),
+		)
+	}
+	return nil
 }
 
 func (k Keeper) HandleRegisterRelayer(ctx sdk.Context, p *types.RegisterRelayerProposal) error {
